@@ -48,6 +48,124 @@ class Canon:
         sub = norm.naming_locals(P, F) if (INLINE_CONST_LOCALS and alias_locals) else norm.Subst()
         self.inl = sub.vals
         self.lams = sub.lams
+        self.absorbed = set()
+        if INLINE_CONST_LOCALS and alias_locals:
+            self._if_convert()
+
+    def _if_convert(self):
+        """`double x = L; if (c) { x = E; }` (optionally `else { x = E2; }`) where these are the only writes of the scalar local x,
+        nothing between the two statements mentions x, and c, L, E, E2 read only parameters, members and const locals, is the
+        statement form of `const double x = c ? E : L`: x then stands for that conditional expression and the if is not emitted.
+        A one-armed or two-armed conditional assignment and the conditional operator are one computation."""
+        P, F = self.P, self.F
+        writes = {}
+        for n in F.walk(F.body):
+            k = n.get("k")
+            if k in ("BinaryOperator", "CompoundAssignOperator") and n.get("op") in norm.ASSIGN_OPS and n.get("c"):
+                t = sc(n["c"][0])
+                if t is not None and t.get("k") == "DeclRefExpr":
+                    writes.setdefault(t["r"], []).append(n)
+            elif k == "UnaryOperator" and n.get("op") in ("++", "--", "&") and n.get("c"):
+                t = sc(n["c"][0])
+                if t is not None and t.get("k") == "DeclRefExpr":
+                    writes.setdefault(t["r"], []).append(None)
+
+        def const_leaves(e, later):
+            for y in F.walk(e):
+                ky = y.get("k")
+                if ky == "DeclRefExpr":
+                    d = P.d(y["r"])
+                    if d.get("storage") in ("local", "param", "static_local"):
+                        if y["r"] in self.inl:
+                            continue
+                        ty = (y.get("t") or d.get("t") or "")
+                        if not (ty.startswith("const ") or d.get("const")):
+                            # a variable leaf keeps its value from the declaration of x to the end of x's scope when none of
+                            # its writes lies in that stretch of the block
+                            if y["r"] in later or not norm.is_arith(ty):
+                                return False
+                elif ky in ("BinaryOperator", "CompoundAssignOperator") and y.get("op") in norm.ASSIGN_OPS:
+                    return False
+                elif ky == "UnaryOperator" and y.get("op") in ("++", "--"):
+                    return False
+                elif ky in ("CallExpr", "CXXMemberCallExpr", "CXXOperatorCallExpr", "LambdaExpr", "CXXNewExpr", "CXXThrowExpr", "CXXConstructExpr"):
+                    if ky in ("CallExpr",) and y.get("callee") and (P.d(y["callee"]).get("qn") or "").startswith("std::"):
+                        continue
+                    return False
+            return True
+
+        def single_assign(st, key):
+            if st is None:
+                return None
+            if st.get("k") == "CompoundStmt":
+                kids = [x for x in (st.get("c") or []) if x is not None]
+                if len(kids) != 1:
+                    return None
+                st = kids[0]
+            st0 = sc(st)
+            if st0 is None or st0.get("k") != "BinaryOperator" or st0.get("op") != "=":
+                return None
+            t = sc(st0["c"][0])
+            if t is None or t.get("k") != "DeclRefExpr" or t.get("r") != key:
+                return None
+            return st0
+
+        for blk in F.walk(F.body):
+            if blk.get("k") != "CompoundStmt":
+                continue
+            kids = [x for x in (blk.get("c") or []) if x is not None]
+            for i, x in enumerate(kids):
+                if not (x.get("k") == "DeclStmt" and len(x.get("c") or []) == 1 and x["c"][0].get("k") == "VarDecl" and x["c"][0].get("c")):
+                    continue
+                v = x["c"][0]
+                key = v["r"]
+                t = v.get("t", "")
+                if t.startswith("const ") or not norm.is_arith(t) or key in self.inl:
+                    continue
+                d = P.d(key)
+                if d.get("storage") != "local":
+                    continue
+                # the next statement that mentions x must be the conditional assignment
+                j = None
+                for jj in range(i + 1, len(kids)):
+                    if any(y.get("k") == "DeclRefExpr" and y.get("r") == key for y in F.walk(kids[jj])):
+                        j = jj
+                        break
+                if j is None or kids[j].get("k") != "IfStmt":
+                    continue
+                ifs = kids[j]
+                c = ifs.get("c") or []
+                if len(c) < 3 or c[0] is None:
+                    continue
+                a1 = single_assign(c[1], key)
+                a2 = single_assign(c[2], key) if c[2] is not None else None
+                if a1 is None or (c[2] is not None and a2 is None):
+                    continue
+                ws = writes.get(key, [])
+                if len(ws) != (1 if a2 is None else 2) or any(w is None for w in ws) or any(w is not a1 and w is not a2 for w in ws):
+                    continue
+                L = v["c"][0]
+                parts = [c[0], a1["c"][1], L] + ([a2["c"][1]] if a2 is not None else [])
+                if any(y.get("k") == "DeclRefExpr" and y.get("r") == key for e in parts for y in F.walk(e)):
+                    continue
+                later = set()
+                for st in kids[i:]:
+                    for y in F.walk(st):
+                        if y.get("k") in ("BinaryOperator", "CompoundAssignOperator") and y.get("op") in norm.ASSIGN_OPS and y.get("c"):
+                            for z in F.walk(y["c"][0]):
+                                if z.get("k") == "DeclRefExpr":
+                                    later.add(z["r"])
+                        elif y.get("k") == "UnaryOperator" and y.get("op") in ("++", "--", "&") and y.get("c"):
+                            for z in F.walk(y["c"][0]):
+                                if z.get("k") == "DeclRefExpr":
+                                    later.add(z["r"])
+                later.discard(key)
+                if not all(const_leaves(e, later) for e in parts):
+                    continue
+                other = a2["c"][1] if a2 is not None else L
+                self.inl = dict(self.inl)
+                self.inl[key] = {"k": "ConditionalOperator", "t": t, "c": [c[0], a1["c"][1], other]}
+                self.absorbed.add(id(ifs))
 
     def name(self, key, d):
         if key in self.alias:
@@ -117,6 +235,9 @@ class Canon:
                 a, b, op = b, a, "<="
             return "(%s %s %s)" % (a, op, b)
         if k == "ConditionalOperator":
+            c0 = sc(c[0])
+            if c0 is not None and c0.get("k") == "UnaryOperator" and c0.get("op") == "!" and not c0.get("post"):
+                return "(%s ? %s : %s)" % (r(c0["c"][0]), r(c[2]), r(c[1]))      # !c ? a : b is c ? b : a
             return "(%s ? %s : %s)" % (r(c[0]), r(c[1]), r(c[2]))
         if k == "ArraySubscriptExpr":
             return "%s[%s]" % (r(c[0]), r(c[1]))
@@ -274,6 +395,8 @@ class Canon:
                     cond = sc(cc["c"][0]) if cc.get("k") == "UnaryOperator" and cc.get("op") == "!" else cc
                     break
             out.append("%sASSERT_THROW %s" % (pad, self.e(cond)))
+        elif k == "IfStmt" and id(n) in self.absorbed:
+            return
         elif k == "IfStmt":
             out.append("%sif %s" % (pad, self.e(c[0])))
             self.s(c[1], ind + 1, out)
